@@ -618,7 +618,7 @@ pub fn cmd_run(args: &[String]) -> i32 {
         println!("VIOLATION property={} replay={}", scn.property(), path.display());
         println!("  signature={sig} violating_runs={n}");
         if let Some(v) = std::fs::read(path).ok().and_then(|b| serde_json::from_slice::<Value>(&b).ok()) {
-            println!("  detail: {}", v["violation"]["detail"].as_str().unwrap_or(""));
+            println!("  detail: {}", v["violation"]["detail"].as_str().unwrap_or("").split_whitespace().collect::<Vec<_>>().join(" "));
         }
     }
 
